@@ -74,6 +74,17 @@ func genDefs(r *RNG) *dCase {
 				}
 			}
 			ret := nLit(Pick(r, scal))
+			if !isModule && vis != "public" && r.Chance(1, 5) {
+				// a class nested in a private/protected section: its body starts public
+				in := dMethod{Class: newName("Inner"), Name: newName("nm"), Vis: "public", Form: "nested-class-in-" + vis}
+				emit("  class " + in.Class)
+				in.Row = row()
+				emit("    def " + in.Name + "(a = 1)")
+				emit("      " + ret)
+				emit("    end")
+				emit("  end")
+				dc.Methods = append(dc.Methods, in)
+			}
 			m := dMethod{Class: cname, Form: form, Vis: "public"}
 			switch form {
 			case "inst":
@@ -107,6 +118,17 @@ func genDefs(r *RNG) *dCase {
 				m.Name = newName("cm")
 				m.Static = true
 				emit("  class << self")
+				// the singleton body has sections of its own; the section of the class
+				// body it is written in continues after it
+				if r.Chance(1, 3) {
+					kw := Pick(r, []string{"private", "protected"})
+					if vis != "public" && r.Bool() {
+						kw = vis
+					}
+					emit("    " + kw)
+					m.Vis = kw
+					m.Form = "meta-" + kw
+				}
 				m.Row = row()
 				emit("    def " + m.Name + "(a = 1)")
 				emit("      " + ret)
@@ -116,6 +138,8 @@ func genDefs(r *RNG) *dCase {
 			dc.Methods = append(dc.Methods, m)
 			mi := len(dc.Methods) - 1
 			switch {
+			case m.Static && m.Vis != "public":
+				// a private/protected class method: not callable from the top level
 			case m.Static:
 				topCalls = append(topCalls, pending{mi, cname + "." + m.Name})
 			case isModule:
